@@ -208,6 +208,8 @@ class ModuleCanon:
             return
         if isinstance(value, ast.Constant) and isinstance(value.value, (str, int, float, complex, bool, type(None))):
             self.new_consts[name] = value
+        elif isinstance(value, (ast.BinOp, ast.UnaryOp)) and all(isinstance(n, (ast.BinOp, ast.UnaryOp, ast.Constant, ast.operator, ast.unaryop, ast.expr_context)) and (not isinstance(n, ast.Constant) or isinstance(n.value, (int, float, complex)) and not isinstance(n.value, bool)) for n in ast.walk(value)):
+            self.new_consts[name] = value  # a numeric constant expression such as 2 ** (-0.5)
         elif isinstance(value, ast.Call) and dotted(value.func) == "re.compile" and value.args and isinstance(value.args[0], ast.Constant) and len(value.args) == 1 and not value.keywords:
             self.new_consts[name] = value
         elif isinstance(value, (ast.Tuple, ast.List)) and all(isinstance(e, ast.Constant) for e in value.elts) and isinstance(value, ast.Tuple):
@@ -2299,6 +2301,59 @@ def _sink_assignments(stmts: List[ast.stmt]) -> List[ast.stmt]:
     return stmts
 
 
+def _loop_raise_to_any(stmts: List[ast.stmt]) -> List[ast.stmt]:
+    """``for v in xs: if c(v): raise E`` (nothing else in the loop, E independent of v, c without unknown calls)
+    ==  ``if any(c(v) for v in xs): raise E``"""
+    out: List[ast.stmt] = []
+    for s in stmts:
+        for field in ("body", "orelse", "finalbody"):
+            v = getattr(s, field, None)
+            if isinstance(v, list) and v and isinstance(v[0], ast.stmt) and not isinstance(s, (ast.FunctionDef, ast.AsyncFunctionDef, ast.ClassDef)):
+                setattr(s, field, _loop_raise_to_any(v))
+        if isinstance(s, ast.Try):
+            for h in s.handlers:
+                h.body = _loop_raise_to_any(h.body)
+        if isinstance(s, ast.For) and not s.orelse and len(s.body) == 1 and isinstance(s.body[0], ast.If) and not s.body[0].orelse and len(s.body[0].body) == 1 and isinstance(s.body[0].body[0], ast.Raise):
+            test, rs = s.body[0].test, s.body[0].body[0]
+            tv = {n.id for n in ast.walk(s.target) if isinstance(n, ast.Name)}
+            if not (tv & {n.id for n in ast.walk(rs) if isinstance(n, ast.Name)}) and _expr_kind(test) != "unknown" and _expr_kind(s.iter) != "unknown":
+                gen = ast.GeneratorExp(elt=test, generators=[ast.comprehension(target=s.target, iter=s.iter, ifs=[], is_async=0)])
+                new = ast.If(test=ast.Call(func=ast.Name(id="any", ctx=ast.Load()), args=[gen], keywords=[]), body=[rs], orelse=[])
+                out.append(ast.copy_location(new, s))
+                ast.fix_missing_locations(new)
+                continue
+        out.append(s)
+    return out
+
+
+def _reduce_lambda_to_loop(stmts: List[ast.stmt], counter: List[int]) -> List[ast.stmt]:
+    """``x = reduce(lambda a, e: BODY, xs, init)`` / ``return reduce(...)``  ==  ``a = init; for e in xs: a = BODY; x = a``"""
+    out: List[ast.stmt] = []
+    for s in stmts:
+        for field in ("body", "orelse", "finalbody"):
+            v = getattr(s, field, None)
+            if isinstance(v, list) and v and isinstance(v[0], ast.stmt) and not isinstance(s, (ast.FunctionDef, ast.AsyncFunctionDef, ast.ClassDef)):
+                setattr(s, field, _reduce_lambda_to_loop(v, counter))
+        val = getattr(s, "value", None) if isinstance(s, (ast.Assign, ast.Return)) else None
+        if isinstance(val, ast.Call) and (dotted(val.func) or "").split(".")[-1] == "reduce" and len(val.args) == 3 and not val.keywords and isinstance(val.args[0], ast.Lambda) and len(val.args[0].args.args) == 2 and not val.args[0].args.defaults:
+            lam = val.args[0]
+            a, e = lam.args.args[0].arg, lam.args.args[1].arg
+            counter[0] += 1
+            acc = f"_red{counter[0]}"
+            body = _Subst({a: ast.Name(id=acc, ctx=ast.Load())}).visit(copy.deepcopy(lam.body))
+            init = ast.Assign(targets=[ast.Name(id=acc, ctx=ast.Store())], value=val.args[2])
+            loop = ast.For(target=ast.Name(id=e, ctx=ast.Store()), iter=val.args[1], body=[ast.Assign(targets=[ast.Name(id=acc, ctx=ast.Store())], value=body)], orelse=[])
+            last = copy.copy(s)
+            last.value = ast.Name(id=acc, ctx=ast.Load())
+            for n in (init, loop, last):
+                ast.copy_location(n, s)
+                ast.fix_missing_locations(n)
+            out.extend([init, loop, last])
+            continue
+        out.append(s)
+    return out
+
+
 def _sort_inert_runs(stmts: List[ast.stmt]) -> List[ast.stmt]:
     """consecutive ``name = <expr without unknown calls>`` statements that do not depend on one another may run in any
     order: put them in a fixed one (by the shape of the expression, which does not depend on local names' spelling)"""
@@ -2380,7 +2435,9 @@ def canonical_function(fn: ast.FunctionDef, _nested: bool = False, rename: bool 
     ast.fix_missing_locations(f)
     _augadd_to_extend(f)
     f = _IterIdioms().visit(f)
+    f.body = _reduce_lambda_to_loop(list(f.body), [0])
     for _round in range(3):
+        f.body = _loop_raise_to_any(list(f.body))
         f.body = _split_tuple_assign(list(f.body))
         f.body = _normalise_blocks(list(f.body), False) or [ast.Pass()]
         f.body = _split_multi_assign_branches(f.body)
